@@ -151,9 +151,9 @@ def main():
         "hooks": {"guard": "LIBA_VERIF", "enable": "none needed: no source hook exists; checks compile /repo sources directly (goto-cc / clang-14 -emit-llvm) with a generated config header",
                   "baseline_off_cmd": BASE_OFF, "source_commits": [], "add_only": True},
         "engines": [
-            {"name": "cbmc", "path": "lib/cbmc.py", "serves_properties": [k for k, v in CHECKS.items() if v["engine"] == "cbmc"],
+            {"name": "cbmc", "path": "lib/cbmc.py", "serves_properties": [k for k, v in CHECKS.items() if "cbmc" in v["engine"]],
              "kind_free_text": "CBMC 6.11 bounded model checker on goto-cc builds of the real C translation units; SAT back ends raced"},
-            {"name": "llsym", "path": "lib/llsym", "serves_properties": [k for k, v in CHECKS.items() if v["engine"] == "llsym"],
+            {"name": "llsym", "path": "lib/llsym", "serves_properties": [k for k, v in CHECKS.items() if "llsym" in v["engine"]],
              "kind_free_text": "own forking symbolic executor for clang-14 LLVM IR of the real sources, z3 as decision procedure (bit-vector and exact-real domains)"},
         ],
         "checks": checks,
